@@ -2,6 +2,7 @@
   C17 — string built-ins: split and join are inverse; type names are total.
 -/
 import Pakhi.Lemmas.Split
+import Pakhi.Model.Interp
 
 namespace Pakhi
 namespace C17
@@ -95,6 +96,19 @@ theorem type_errors (st : St) (a b : Val) :
 example : splitStr ",a,".toList [','] = [[], ['a'], []] := by decide
 example : splitStr [] [','] = [[]] := by decide
 example : splitStr ['a','a','a'] ['a','a'] = [[], ['a']] := by decide
+
+/-- **a call spelled like a built-in is the built-in**, whatever else that name is bound to: the scopes are not consulted, so a
+    user variable, parameter or function called `_টাইপ`, `_স্ট্রিং-স্প্লিট`, `_স্ট্রিং-জয়েন`, `_স্ট্রিং`, `_সংখ্যা`, … never captures the call
+    (the value of the call is what `callBuiltin` computes from the evaluated arguments) -/
+theorem builtin_name_calls_builtin (prog : List Stmt) (f : Nat) (cur : List Stmt) (tok : Token) (m0 : Meta) (args : Exprs)
+    (s s1 s2 : St) (vs : List Val) (v : Val) (hb : isBuiltin tok.lexeme = true) (hne : tok.lexeme ≠ W.fnError)
+    (ha : evalList prog f cur args s = .ok (vs, s1)) (hf : callBuiltin tok.lexeme vs s1 = .inl (v, s2)) :
+    evalCall prog (f+1) cur (.var tok m0) args s = .ok (v, s2) := by
+  have h1 : (tok.lexeme == W.fnError) = false := by simpa using hne
+  simp [evalCall, stripGroups, hb, ha, h1, hf]
+
+/-- the hypotheses are met by the three built-ins of this property -/
+example : isBuiltin W.fnType = true ∧ isBuiltin W.fnStringSplit = true ∧ isBuiltin W.fnStringJoin = true ∧ W.fnType ≠ W.fnError := by decide
 
 end C17
 end Pakhi
